@@ -98,18 +98,19 @@ def Dev.updateFromState (d : Dev) (s : StateResp) : Dev :=
     followMe := s.followMe, purifier := s.purifier, humidity := s.humidity
     auxMode := if s.indepAuxHeat then 2 else if s.auxHeat then 1 else 0 }
 
-/-- breeze part of the properties branch (code as it stands: the BREEZELESS test comes last and
-    overwrites) -/
+/-- breeze part of the properties branch: breeze control supersedes; otherwise an active
+    breezeless, else an active breeze away, else OFF when either was reported
+    (repaired by `fix:` d7: an inactive breezeless no longer hides an active breeze away) -/
 def breezeFromProps (cur : Nat) (p : PropDict) : Nat :=
   match dictGet p pidBreezeControl with
   | some v => if (enumValues Generated.breezeMode).contains (propNat v) then propNat v else breezeOff
   | none =>
-    let afterAway := match dictGet p pidBreezeAway with
-      | some v => if propTruthy v then breezeAway else breezeOff
-      | none => cur
-    match dictGet p pidBreezeless with
-    | some v => if propTruthy v then breezeLess else breezeOff
-    | none => afterAway
+    match dictGet p pidBreezeAway, dictGet p pidBreezeless with
+    | none, none => cur
+    | away, less =>
+      if (less.map propTruthy).getD false then breezeLess
+      else if (away.map propTruthy).getD false then breezeAway
+      else breezeOff
 
 /-- the `PropertiesResponse` branch of `_update_state` -/
 def Dev.updateFromProps (d : Dev) (p : PropDict) : Dev :=
